@@ -126,6 +126,10 @@ class ProcessWorker(Worker):
                     self._result = self._comms.parent_end.get()
                 except queue.Empty:
                     break
+                except Exception:
+                    # the child has sent something which cannot be recreated on our side
+                    logger.exception('Could not receive the result from the child')
+                    self._result = ((False, None), self._user_state)
 
             if self._result is None:
                 self._result = (False, None)
